@@ -247,6 +247,6 @@ Section TRSO.
                                  (create_transport_diagram (get_nodes_to_transport (snd d) (snd (fst d)) g) g) acc) domains [] in
       let graphs := update TARGET g graphs in
       let surr := fold_left (fun acc d => update (fst (fst d)) (snd d) acc) domains [] in
-      trso (4 * List.length (nodes g) + 8)
+      trso (fuel_for g)
            (mkTq X Y (prob_safe (Some (V TARGET)) (Vs (nodes g)) None [] None) [] TARGET graphs surr).
 End TRSO.
